@@ -4,39 +4,173 @@ import (
 	"flag"
 	"fmt"
 	"os"
+	"path/filepath"
+	"regexp"
 	"runtime"
+	"strconv"
 	"strings"
 )
 
 const defaultRepo = "/repo"
 const verifDir = "/verif"
 
+// loadWorld loads the repository with its contracts. Contracts whose clauses no longer type-check against the
+// current tree (a function they name changed shape, a field they mention is gone) are set aside as "broken" instead
+// of failing the whole load, so that only the properties those contracts serve are affected.
 func loadWorld(repo string) (*World, error) {
 	contracts, overlay, err := readContracts(repo, verifDir+"/contracts")
 	if err != nil {
 		return nil, err
 	}
+	broken := map[string]*Contract{}
+	brokenWhy := map[string]string{}
+	for round := 0; ; round++ {
+		w, err := tryLoad(repo, contracts, overlay)
+		if err == nil {
+			w.Broken = broken
+			w.BrokenWhy = brokenWhy
+			return w, nil
+		}
+		if round > 12 {
+			return nil, err
+		}
+		le, ok := err.(*loadErr)
+		if !ok {
+			return nil, err
+		}
+		progress := false
+		// 1. errors inside generated clause functions: drop the contracts they belong to
+		for _, k := range le.keys {
+			if c := contracts[k]; c != nil {
+				broken[k] = c
+				brokenWhy[k] = le.msgFor(k)
+				delete(contracts, k)
+				progress = true
+			}
+		}
+		// 2. contracts naming functions that no longer exist
+		for _, k := range le.missing {
+			if c := contracts[k]; c != nil {
+				broken[k] = c
+				brokenWhy[k] = "the function this contract names does not exist in the current tree"
+				delete(contracts, k)
+				progress = true
+			}
+		}
+		// 3. errors inside a contracts file itself (its spec functions): set the whole package's contracts aside
+		for _, pkg := range le.pkgs {
+			for k, c := range contracts {
+				if c.Pkg == pkg {
+					broken[k] = c
+					brokenWhy[k] = "the specification functions of package " + pkg + " do not type-check against the current tree: " + le.first
+					delete(contracts, k)
+					progress = true
+				}
+			}
+			p := filepath.Join(repo, pkg, contractFile)
+			overlay[p] = []byte("//go:build verif\n\npackage " + pkg + "\n")
+			progress = true
+			delete(le.pkgSeen, pkg)
+		}
+		if !progress {
+			return nil, err
+		}
+	}
+}
+
+type loadErr struct {
+	text    string
+	first   string
+	keys    []string
+	missing []string
+	pkgs    []string
+	pkgSeen map[string]bool
+	byKey   map[string]string
+}
+
+func (e *loadErr) Error() string { return e.text }
+func (e *loadErr) msgFor(k string) string {
+	if m := e.byKey[k]; m != "" {
+		return "its clauses do not type-check against the current tree: " + m
+	}
+	return "its clauses do not type-check against the current tree"
+}
+
+var reGenErr = regexp.MustCompile(`([\w./-]+)/(\w+)/(xvc_gen_verif|contracts_verif)\.go:(\d+):\d+: (.*)`)
+
+func tryLoad(repo string, contracts map[string]*Contract, overlay0 map[string][]byte) (*World, error) {
+	overlay := map[string][]byte{}
+	for k, v := range overlay0 {
+		overlay[k] = v
+	}
 	w1, err := loadRepo(repo, overlay)
+	if err != nil {
+		return nil, classifyLoadErr(err, nil)
+	}
+	gen, missing, err := genClauseFiles(w1, contracts)
 	if err != nil {
 		return nil, err
 	}
-	gen, err := genClauseFiles(w1, contracts)
-	if err != nil {
-		return nil, err
+	if len(missing) > 0 {
+		return nil, &loadErr{text: "contracts name functions that do not exist: " + strings.Join(missing, ", "), missing: missing}
 	}
 	for k, v := range gen {
 		overlay[k] = v
 	}
 	w, err := loadRepo(repo, overlay)
 	if err != nil {
-		// show the generated files to make clause errors readable
-		return nil, fmt.Errorf("%v\n(while type-checking generated clause functions)", err)
+		return nil, classifyLoadErr(err, gen)
 	}
 	if err := attachClauses(w, contracts); err != nil {
 		return nil, err
 	}
 	w.Gen = gen
 	return w, nil
+}
+
+// classifyLoadErr maps type errors to the contracts (generated clause functions) or packages (contracts files) at fault.
+func classifyLoadErr(err error, gen map[string][]byte) error {
+	le := &loadErr{text: err.Error() + "\n(while type-checking contracts)", byKey: map[string]string{}, pkgSeen: map[string]bool{}}
+	seenK := map[string]bool{}
+	for _, ln := range strings.Split(err.Error(), "\n") {
+		m := reGenErr.FindStringSubmatch(ln)
+		if m == nil {
+			continue
+		}
+		if le.first == "" {
+			le.first = m[5]
+		}
+		pkg := m[2]
+		if m[3] == "contracts_verif" {
+			if !le.pkgSeen[pkg] {
+				le.pkgSeen[pkg] = true
+				le.pkgs = append(le.pkgs, pkg)
+			}
+			continue
+		}
+		line, _ := strconv.Atoi(m[4])
+		for path, src := range gen {
+			if !strings.HasSuffix(path, "/"+pkg+"/"+genFile) {
+				continue
+			}
+			lines := strings.Split(string(src), "\n")
+			for i := line - 1; i >= 0 && i < len(lines); i-- {
+				if strings.HasPrefix(lines[i], "// @key ") {
+					k := strings.TrimPrefix(lines[i], "// @key ")
+					if !seenK[k] {
+						seenK[k] = true
+						le.keys = append(le.keys, k)
+						le.byKey[k] = m[5]
+					}
+					break
+				}
+			}
+		}
+	}
+	if len(le.keys) == 0 && len(le.pkgs) == 0 {
+		return err
+	}
+	return le
 }
 
 func main() {
